@@ -3,6 +3,7 @@
 #include "harness.hpp"
 
 #include <errno.h>
+#include <dirent.h>
 #include <fcntl.h>
 #include <poll.h>
 #include <signal.h>
@@ -121,6 +122,86 @@ struct Outcome {
     std::vector<std::string> trace;
 };
 
+// ------------------------------------------------------------------ ThreadSanitizer reports (tsan variant only)
+extern "C" void* __tsan_get_current_fiber(void) __attribute__((weak));
+static std::string g_tsan_log_path;   // set by the worker: <log base>.tsan.<pid>
+static std::size_t g_tsan_log_off = 0;
+
+// innermost frame of one stack that lies in the repository, as "File.cpp:function"
+static std::string repo_frame(const std::string& stack) {
+    std::istringstream in(stack);
+    std::string line;
+    while (std::getline(in, line)) {
+        if (line.find("    #") != 0) continue;
+        // frames of the C++ library and of sanitizer interceptors are skipped; if the first frame below them belongs to the
+        // harness (its output capture, scripted peers, kernel) the access is not the repository's
+        if (line.find(" /verif/") != std::string::npos || line.find("sk::") != std::string::npos || line.find("wl::") != std::string::npos || line.find("hz::") != std::string::npos || line.find("verif_w4::") != std::string::npos) return "";
+        const std::size_t at = line.find("/repo/src/") != std::string::npos ? line.find("/repo/src/") : line.find("/repo/include/");
+        if (at == std::string::npos) continue;
+        std::string file = line.substr(at, line.find_first_of(": ", at) - at);
+        const std::size_t slash = file.rfind('/');
+        if (slash != std::string::npos) file = file.substr(slash + 1);
+        std::string fn = line.substr(line.find(' ', 4) + 1, at - line.find(' ', 4) - 2);
+        const std::size_t paren = fn.find('(');
+        if (paren != std::string::npos && paren > 0) fn = fn.substr(0, paren);
+        const std::size_t scope = fn.rfind("::");
+        if (scope != std::string::npos && scope + 2 < fn.size()) fn = fn.substr(scope + 2);
+        for (auto& ch : fn) if (ch == ' ' || ch == '<' || ch == '>' || ch == ',') ch = '_';
+        return file + ":" + fn;
+    }
+    return "";
+}
+
+static void collect_tsan_reports(const Scenario& sc, std::vector<Violation>& violations, std::map<std::string, std::uint64_t>& probes) {
+    if (!__tsan_get_current_fiber) return;
+    // the sanitizer runtimes share the log_path flag; whichever *_OPTIONS variable is parsed last names the file
+    if (g_tsan_log_path.empty()) g_tsan_log_path = g_verif_dir + "/.build/logs/" + sc.id + ".tsan." + std::to_string(getpid());
+    std::ifstream in(g_tsan_log_path, std::ios::binary);
+    if (!in) {
+        const std::string alt = g_verif_dir + "/.build/logs/" + sc.id + ".ubsan." + std::to_string(getpid());
+        in.open(alt, std::ios::binary);
+        if (!in) return;
+        g_tsan_log_path = alt;
+    }
+    in.seekg(0, std::ios::end);
+    const std::size_t size = static_cast<std::size_t>(in.tellg());
+    if (size <= g_tsan_log_off) return;
+    std::string text(size - g_tsan_log_off, '\0');
+    in.seekg(static_cast<std::streamoff>(g_tsan_log_off));
+    in.read(text.data(), static_cast<std::streamsize>(text.size()));
+    g_tsan_log_off = size;
+    std::set<std::string> seen;
+    std::size_t pos = 0;
+    while ((pos = text.find("WARNING: ThreadSanitizer: ", pos)) != std::string::npos) {
+        std::size_t end = text.find("WARNING: ThreadSanitizer: ", pos + 10);
+        if (end == std::string::npos) end = text.size();
+        const std::string rep = text.substr(pos, end - pos);
+        pos = end;
+        const std::string kind = rep.substr(26, rep.find(" (pid", 26) - 26);
+        if (kind != "data race") { ++probes["tsan_other_report_" + kind.substr(0, 30)]; continue; }
+        if (rep.find("Location is TLS") != std::string::npos || rep.find("thread-local") != std::string::npos) { ++probes["tsan_report_on_thread_local_ignored"]; continue; }  // fibers share the OS thread's TLS: artefact of the simulation
+        // the two access stacks: from "  <Access> of size" to the next blank line
+        std::vector<std::string> stacks;
+        std::size_t p2 = 0;
+        while (stacks.size() < 2) {
+            const std::size_t a = rep.find(" of size ", p2);
+            if (a == std::string::npos) break;
+            const std::size_t ls = rep.rfind('\n', a);
+            const std::size_t le = rep.find("\n\n", a);
+            stacks.push_back(rep.substr(ls == std::string::npos ? 0 : ls + 1, (le == std::string::npos ? rep.size() : le) - (ls == std::string::npos ? 0 : ls + 1)));
+            p2 = le == std::string::npos ? rep.size() : le;
+        }
+        if (stacks.size() < 2) { ++probes["tsan_report_unparsed"]; continue; }
+        std::string f1 = repo_frame(stacks[0]), f2 = repo_frame(stacks[1]);
+        if (f1.empty() || f2.empty()) { ++probes["tsan_report_without_two_repository_stacks"]; continue; }
+        if (f2 < f1) std::swap(f1, f2);
+        const std::string key = sc.id + ".race." + f1 + "~" + f2;
+        if (!seen.insert(key).second) continue;
+        std::string first_lines = rep.substr(0, 1800);
+        violations.push_back({key, "ThreadSanitizer: unsynchronised conflicting accesses: " + f1 + " / " + f2 + " | " + first_lines});
+    }
+}
+
 static Outcome execute(const Scenario& sc, const Plan& plan, std::uint64_t sched_seed, bool trace) {
     Ctx ctx;
     ctx.plan = &plan;
@@ -139,6 +220,7 @@ static Outcome execute(const Scenario& sc, const Plan& plan, std::uint64_t sched
         std::string key = out.st.deadlock ? "kernel.deadlock" : (out.st.step_limit ? "kernel.step_limit" : "kernel.abort");
         ctx.violations.push_back({key, out.st.fatal});
     }
+    collect_tsan_reports(sc, ctx.violations, ctx.probes);
     out.violations = ctx.violations;
     out.probes = ctx.probes;
     out.faults = ctx.faults;
@@ -354,19 +436,25 @@ static int worker_main(const Scenario& sc, const Options& opt) {
         const bool gate = (opt.gate_every > 0 && (idx / static_cast<std::uint64_t>(opt.workers)) % static_cast<std::uint64_t>(opt.gate_every) == 0) || !o.violations.empty();
         if (gate) {
             Outcome o2 = execute(sc, c.plan, c.sched_seed, false);
-            bool same = o2.st.log_hash == o.st.log_hash && o2.violations.size() == o.violations.size();
-            for (std::size_t i = 0; same && i < o.violations.size(); ++i) same = o.violations[i].key == o2.violations[i].key;
+            // ThreadSanitizer reports each race once per process, so a re-execution in this process cannot repeat
+            // ".race." findings; they are confirmed by the fresh-process replay instead.
+            auto without_races = [](const std::vector<Violation>& v) { std::vector<std::string> k; for (auto& x : v) if (x.key.find(".race.") == std::string::npos) k.push_back(x.key); return k; };
+            bool same = o2.st.log_hash == o.st.log_hash && without_races(o2.violations) == without_races(o.violations);
             emit(fmt("G %llu %d", (unsigned long long)idx, same ? 1 : 0));
             if (!same) { emit(fmt("X %llu nondeterministic run (hash %llu vs %llu)", (unsigned long long)idx, (unsigned long long)o.st.log_hash, (unsigned long long)o2.st.log_hash)); continue; }
         }
         for (auto& v : o.violations) {
             if (find_known(known, sc.id, v.key)) { emit("K " + std::to_string(idx) + " " + v.key); continue; }
-            if (minimised_keys.count(v.key) || minimised_keys.size() >= 3) { emit("W " + std::to_string(idx) + " " + v.key); continue; }
+            const bool race_key = v.key.find(".race.") != std::string::npos;
+            std::size_t reduced_so_far = 0;
+            for (auto& mk : minimised_keys) if (mk.find(".race.") == std::string::npos) ++reduced_so_far;
+            if (minimised_keys.count(v.key) || (!race_key && reduced_so_far >= 3)) { emit("W " + std::to_string(idx) + " " + v.key); continue; }
             minimised_keys.insert(v.key);
             { std::string m0 = v.msg; for (auto& ch : m0) if (ch == '\n') ch = ' '; emit("M " + std::to_string(idx) + " " + v.key + " " + m0); }
             int reruns = 0;
-            Plan minimal = opt.no_minimise ? c.plan : minimise(sc, c.plan, c.sched_seed, v.key, &reruns);
-            Outcome traced = execute(sc, minimal, c.sched_seed, true);
+            const bool is_race = v.key.find(".race.") != std::string::npos;
+            Plan minimal = (opt.no_minimise || is_race) ? c.plan : minimise(sc, c.plan, c.sched_seed, v.key, &reruns);
+            Outcome traced = is_race ? o : execute(sc, minimal, c.sched_seed, true);
             Violation vv = v;
             for (auto& tv : traced.violations) if (tv.key == v.key) vv = tv;
             const std::string path = write_replay(sc, opt.seed, idx, c, minimal, vv, traced, reruns, "violation");
@@ -476,7 +564,7 @@ static pid_t spawn_child(const std::vector<std::string>& args, int* read_fd, con
     const std::string lp = san_log_base(prop);
     envs.push_back("ASAN_OPTIONS=exitcode=77:detect_leaks=0:abort_on_error=0:handle_segv=1:detect_stack_use_after_return=0:allocator_may_return_null=1:quarantine_size_mb=4:thread_local_quarantine_size_kb=64:log_path=" + lp + ".asan");
     envs.push_back("UBSAN_OPTIONS=halt_on_error=1:exitcode=77:print_stacktrace=1:log_path=" + lp + ".ubsan");
-    envs.push_back("TSAN_OPTIONS=exitcode=0:halt_on_error=0:report_signal_unsafe=0:log_path=" + lp + ".tsan:second_deadlock_stack=1");
+    envs.push_back("TSAN_OPTIONS=exitcode=0:halt_on_error=0:report_signal_unsafe=0:report_thread_leaks=0:log_path=" + lp + ".tsan:second_deadlock_stack=1");
     std::vector<char*> envp;
     for (auto& e : envs) envp.push_back(const_cast<char*>(e.c_str()));
     envp.push_back(nullptr);
@@ -578,6 +666,12 @@ static int parent_main(const Scenario& sc, const Options& opt) {
     mkdir((g_verif_dir + "/.build").c_str(), 0755);
     mkdir((g_verif_dir + "/.build/logs").c_str(), 0755);
     mkdir((g_verif_dir + "/evidence").c_str(), 0755);
+    // stale sanitizer logs of earlier batches of this property
+    if (DIR* dir = opendir((g_verif_dir + "/.build/logs").c_str())) {
+        const std::string prefix = sc.id + ".";
+        while (auto* e = readdir(dir)) if (std::string(e->d_name).rfind(prefix, 0) == 0) unlink((g_verif_dir + "/.build/logs/" + e->d_name).c_str());
+        closedir(dir);
+    }
     const auto known = load_known();
     Agg agg;
     const std::string exe = self_exe();
@@ -940,6 +1034,17 @@ int main(int argc, char** argv) {
         else if (a[0] != '-') opt.prop = a;
     }
     (void)tier_set;
+    // A replay started by hand under ThreadSanitizer needs the same sanitizer environment the parent gives its
+    // children (reports are read back from the log file): set it and start over once.
+    if (!opt.replay.empty() && __tsan_get_current_fiber && !getenv("VERIF_SAN_ENV")) {
+        const std::string lp = g_verif_dir + "/.build/logs/" + opt.prop;
+        mkdir((g_verif_dir + "/.build").c_str(), 0755);
+        mkdir((g_verif_dir + "/.build/logs").c_str(), 0755);
+        setenv("TSAN_OPTIONS", ("exitcode=0:halt_on_error=0:report_signal_unsafe=0:report_thread_leaks=0:log_path=" + lp + ".tsan").c_str(), 1);
+        unsetenv("UBSAN_OPTIONS");
+        setenv("VERIF_SAN_ENV", "1", 1);
+        execv("/proc/self/exe", argv);
+    }
     const Scenario* sc = nullptr;
     for (auto& s : scenarios()) if (s.id == opt.prop) sc = &s;
     if (!sc) { fprintf(stderr, "unknown property '%s' (use --list)\n", opt.prop.c_str()); return 2; }
